@@ -86,12 +86,13 @@ def gen_schedules(ctx, name, lim, interval, wait, horizon, maxarr, simulate=None
     seen, res = set(), []
     for b in behs:
         arr = [dict(t=e["t"], k=e["k"]) for e in b if e["ev"] == "Arrive"]
-        key = json.dumps(arr)
+        key = json.dumps([arr, [e.get("p", 0) for e in b if e["ev"] == "Run"] if max(proc) > 0 else []])
         if key in seen or not arr:
             continue
         seen.add(key)
         res.append(dict(limiter=lim, interval=interval, wait=wait, end=horizon + tail, arrivals=arr,
-                        expect=[dict(t=e["t"], k=e["k"]) for e in b if e["ev"] == "Run"], proc=[]))
+                        expect=[dict(t=e["t"], k=e["k"]) for e in b if e["ev"] == "Run"],
+                        proc=[e.get("p", 0) for e in b if e["ev"] == "Run"] if max(proc) > 0 else []))
     return res
 
 
@@ -152,14 +153,30 @@ def run(ctx):
                         nlead += 1
                         if nlead % 2 == 0:
                             a["via"] = "leader"
-        groups.append((name, lim, i, w, ex + sim, len(ex), len(sim)))
+        groups.append((name, lim, i, w, ex + sim, len(ex), len(sim), (0,)))
+    # runs that take time (a reload lasts, a reconciliation lasts): requests arrive while the previous run is still going on
+    for lim, i, w in [("reload", 4, 0), ("controller", 4, 1)]:
+        name = "%s-i%dw%d-proc" % (lim, i, w)
+        ex = gen_schedules(ctx, name, lim, i, w, 8 if q else 10, 3 if lim == "reload" else 2, proc=(0, 2))
+        sim = gen_schedules(ctx, name + "-sim", lim, i, w, 20, 6, simulate=40 if q else 400, proc=(0, 2))
+        ex = [s for s in ex if any(s["proc"])]
+        sim = [s for s in sim if any(s["proc"])]
+        if len(ex) > (300 if q else 3000):
+            ctx.rng.shuffle(ex)
+            ex = ex[:300 if q else 3000]
+        if not ex or not sim:
+            raise Undecided("no schedules with processing time generated for " + name)
+        groups.append((name, lim, i, w, ex + sim, len(ex), len(sim), (0, 2)))
     samples, total, exh, simn, offgrid, retried = [], 0, 0, 0, 0, 0
     drift_all = []
-    for name, lim, i, w, scheds, nex, nsim in groups:
+    for name, lim, i, w, scheds, nex, nsim, proc in groups:
         out, st = replay(ctx, name, scheds)
         offgrid += st["offgrid"]
         retried += st["retried"]
-        res = judge(ctx, name, lim, i, w, out)
+        res = judge(ctx, name, lim, i, w, out, proc=proc)
+        if max(proc) > 0:
+            # coalescing is promised for instantaneous runs only (a request that arrives during a run needs a run of its own)
+            res["bad"] = [b for b in res["bad"] if b["inv"] != "Coalesced"]
         total += len(scheds)
         exh += nex
         simn += nsim
@@ -177,7 +194,7 @@ def run(ctx):
                 a["orig"] = a["id"]
             origs = [a["orig"] for a in again]
             out2, _ = replay(ctx, "%s-again%d" % (name, attempt), again, par=40)
-            res2 = judge(ctx, "%s-again%d" % (name, attempt), lim, i, w, out2)
+            res2 = judge(ctx, "%s-again%d" % (name, attempt), lim, i, w, out2, proc=proc)
             idmap = {a["id"]: a["orig"] for a in again}
             keep = {(idmap[b["tr"]], b["inv"]) for b in res2["bad"]}
             res["bad"] = [dict(tr=t, inv=v) for (t, v) in invs & keep]
